@@ -24,7 +24,8 @@ RULE = (
     "map, seed as int or tuple, thresholds above the counts), filter/estimator/sampler tuples, optional scaling "
     "transforms in the validation context; plus invalid variants (lower>upper, wrong lengths) that must be rejected. "
     "Oracle: canonical form by formula, generic walk over every reachable model/array (setattr and in-place writes must "
-    "raise), validate(cfg) is cfg, validate(dump) and validate(json(dump)) equal cfg field by field. "
+    "raise), values handed in as ndarrays are copied (the caller may go on writing to them), sub-configurations handed in "
+    "as validated objects are not changed and give the same result every time, validate(cfg) is cfg, validate(dump) and validate(json(dump)) equal cfg field by field. "
     "Non-trivial: a relative perturbation, a broadcast scalar, a clamped threshold or a transform."
 )
 ASSUMPTIONS = [
@@ -195,9 +196,78 @@ def run_case(case: dict[str, Any]) -> dict[str, Any]:  # noqa: C901, PLR0912, PL
     check_frozen(case, again)
     again_json = EnOptConfig.model_validate(to_json(dump))
     equal_configs(case, cfg, again_json, "config", "json-roundtrip")
+    caller_owned_inputs(case, cfgd, ctx, cfg)
     clamp = (rmin is not None and rmin > r_n) or (pmin is not None and pmin > p_n)
     scalar = any(np.ndim(v.get(k, 0.0)) == 0 for k in ("lower_bounds", "upper_bounds")) or np.ndim(g.get("perturbation_magnitudes", 0.0)) == 0
     return {"relative": bool(np.any(types == 2)), "clamp": clamp, "broadcast": scalar and n > 1, "transform": bool(case["transforms"])}  # noqa: PLR2004
+
+
+ARRAY_FIELDS = {
+    "variables": ("initial_values", "lower_bounds", "upper_bounds", "mask", "types"),
+    "objectives": ("weights", "realization_filters", "function_estimators"),
+    "realizations": ("weights",),
+    "linear_constraints": ("coefficients", "lower_bounds", "upper_bounds"),
+    "nonlinear_constraints": ("lower_bounds", "upper_bounds", "realization_filters", "function_estimators"),
+    "gradient": ("perturbation_magnitudes", "perturbation_types", "boundary_types", "samplers"),
+}
+
+
+def caller_owned_inputs(case: dict[str, Any], cfgd: dict[str, Any], ctx: Any, cfg: EnOptConfig) -> None:  # noqa: ANN401, C901
+    """The caller keeps what it handed in: ndarrays and already validated sub-configurations."""
+    import copy
+
+    from ropt.config import enopt as enopt_mod
+
+    # ---- (a) values given as ndarrays the caller goes on using
+    with_arrays = copy.deepcopy(cfgd)
+    owned: list[tuple[str, np.ndarray]] = []
+    for section, names in ARRAY_FIELDS.items():
+        for name in names:
+            value = with_arrays.get(section, {}).get(name) if isinstance(with_arrays.get(section), dict) else None
+            if isinstance(value, (list, tuple)) and len(value) and all(isinstance(x, (int, float, bool, list)) for x in value):
+                a = np.array(value)
+                if a.dtype.kind in "fbiu":
+                    with_arrays[section][name] = a
+                    owned.append((f"{section}.{name}", a))
+    cfg_a = EnOptConfig.model_validate(with_arrays, context=ctx)
+    equal_configs(case, cfg, cfg_a, "config", "array-input")
+    for path, a in owned:
+        before = a.copy()
+        try:
+            if a.dtype.kind == "b":
+                a[...] = ~a
+            elif a.dtype.kind == "f":
+                a[...] = np.where(np.isfinite(a), a * 2.0 + 1.0, 0.0)
+            else:
+                a[...] = a[::-1] + 1
+        except ValueError:
+            check(False, "input-aliased", f"validation made the caller's own array {path} read-only", case)  # noqa: FBT003
+        del before
+    equal_configs(case, cfg, cfg_a, "config", "input-aliased")
+    # ---- (b) sub-configurations given as validated objects (they are frozen: a later validation must not change them)
+    classes = {"variables": "VariablesConfig", "objectives": "ObjectiveFunctionsConfig", "realizations": "RealizationsConfig",
+               "linear_constraints": "LinearConstraintsConfig", "nonlinear_constraints": "NonlinearConstraintsConfig",
+               "optimizer": "OptimizerConfig", "gradient": "GradientConfig"}
+    with_objects = copy.deepcopy(cfgd)
+    handed: list[tuple[str, Any, Any]] = []
+    for section, cls_name in classes.items():
+        if isinstance(with_objects.get(section), dict) and case.get("objects", {}).get(section, True):
+            try:
+                obj = getattr(enopt_mod, cls_name).model_validate(with_objects[section])
+            except (ValidationError, ValueError):
+                continue
+            with_objects[section] = obj
+            handed.append((section, obj, obj.model_copy(deep=True)))
+    try:
+        first = EnOptConfig.model_validate(with_objects, context=ctx)
+        second = EnOptConfig.model_validate(with_objects, context=ctx)
+    except (ValidationError, ValueError):
+        first = second = None  # a section validated on its own may be inconsistent with the rest: rejection is fine
+    for section, obj, saved in handed:
+        equal_configs(case, saved, obj, f"handed-in {section}", "handed-in-object-changed")
+    if first is not None:
+        equal_configs(case, first, second, "config", "revalidation-differs")
+        check_frozen(case, first)
 
 
 def hypothesis_shard(item: dict[str, Any]) -> Collector:
